@@ -100,9 +100,9 @@ def check_find(rep, F, cfg):
             else:
                 # root: match get {Some(value) => v = Some(value), None => return None}
                 if nm == "root":
-                    inner = [x for x in walk(arm["body"]) if x.get("k") == "Match" and gets and any(y is gets[0] for y in walk(x["scrut"]))]
-                    ok2 = bool(inner) and [pat_str(a["pat"]) for a in inner[0]["arms"]] == ["Option::Some($value)", "Option::None"] and ret_none(inner[0]["arms"][1]["body"])
-                    rep.check(ok2, "T-FIND", "T-FIND/%s/root-missing%s" % (label, tag), arm["sp"], "a missing root key => None", show(inner[0])[:100] if inner else "-")
+                    fb = q.failure_branch(arm["body"], gets[0]) if gets else None
+                    ok2 = fb == "try" or (isinstance(fb, dict) and ret_none(fb))
+                    rep.check(ok2, "T-FIND", "T-FIND/%s/root-missing%s" % (label, tag), arm["sp"], "a missing root key => None", show(arm["body"])[:100])
 
     # indexed branch locals
     idx_var = [None]
@@ -280,7 +280,7 @@ def run(rep):
         import re
         sa = show(fa.body)
         sb = show(fb.body)
-        sb2 = re.sub(r"match (<T>::and_then\(.*?\|closure \{closure#1\}\|\)) \{Option::Some\(\$i\) => i, Option::None => return Option::None\}", r"\1?", sb)
+        sb2 = sb  # (`?` and its hand-written match spelling are one node after normalisation)
         rep.check(sa == sb2, "T-FIND", "T-FIND/sibling-copies", fb.sp, "the sync copy equals the default copy (modulo `?` vs explicit match)", None if sa == sb2 else "copies differ")
     # NO-OVERRIDE
     n = 0
@@ -288,14 +288,14 @@ def run(rep):
         if i.get("trait") == "value::Object":
             n += 1
             rep.check("find" not in i["items"], "NO-OVERRIDE", "NO-OVERRIDE/%s" % i["self"], i["sp"], "impl Object for %s does not override find" % i["self"], str(i["items"]))
-    for nm, want in (("<O as document::Document>::find", "Object::find(self, key)"), ("<&dyn value::Object as document::Document>::find", "Object::find(self, key)"),
-                     ("json::<impl document::Document for serde_json::Value>::find", "{if let &Value::Object($o) = self {return Object::find(o, key)}; Option::None}")):
+    for nm, via in (("<O as document::Document>::find", None), ("<&dyn value::Object as document::Document>::find", None),
+                    ("json::<impl document::Document for serde_json::Value>::find", "Object")):
         f = A.fn(nm)
         if f is None:
             rep.lost("NO-OVERRIDE", "NO-OVERRIDE/delegate/" + nm, "impl " + nm)
             continue
-        s = show(f.body)
-        rep.check(s == want, "NO-OVERRIDE", "NO-OVERRIDE/delegate/" + nm, f.sp, "Document::find delegates to Object::find with the key unchanged", s)
+        okd, det = q.delegates(f, "Object::find", via)
+        rep.check(okd, "NO-OVERRIDE", "NO-OVERRIDE/delegate/" + nm, f.sp, "Document::find delegates to Object::find with the key unchanged", det + " " + show(f.body)[:120])
     docimpls = [i for i in A.items["impls"] if i.get("trait") == "document::Document"]
     known = {"&dyn value::Object", "O", "serde_json::Value", "solver::Cache<'_>", "solver::Passthrough<'_>"}
     for i in docimpls:
